@@ -42,7 +42,7 @@ REQUIRED = ['GOTO', 'GOSUB', 'THEN', 'ELSE', 'RESTORE', 'RUN', 'RESUME', 'ERL', 
 def check(ctx, rep):
     from . import c13, _share
     from . import c22 as _c22
-    _share.share(ctx, rep, _c22, ('scan.mode',), 'the scan for line-number references skips string literals and remarks only to the end of their line')
+    _share.share(ctx, rep, _c22, ('scan.mode', 'scan.remark'), 'the scan for line-number references skips string literals and remarks only to the end of their line')
     _share.share(ctx, rep, c13, ('pairing.renum',), 'RENUM re-keys the line dictionary consistently with the rewritten program')
     tkm = ctx.mod(TK)
     words = ctx.const(TOK, 'Tokeniser._linenum_words')
